@@ -12,6 +12,7 @@ pub mod prim;
 pub mod strs;
 pub mod compound;
 pub mod readers;
+pub mod items;
 
 #[cfg(not(kani))]
 include!(concat!(env!("OUT_DIR"), "/registry.rs"));
